@@ -812,7 +812,7 @@ def run(chk):
     import time
     t0 = time.time()
     phases = chk.cov.setdefault("phase_seconds", {})
-    part_normalize(chk, drv, runner)
+    norm_cases = part_normalize(chk, drv, runner)
     phases["normalize"] = round(time.time() - t0, 1)
     t0 = time.time()
     part_streams(chk, drv, runner)
@@ -824,7 +824,7 @@ def run(chk):
     # extension: idempotence of normalisation (aimed streams, hypotheses of ci_normalize_idempotent evaluated) and the writer's
     # normalized_streams rule (which streams are normalised) - harness/c16_idem.py
     import c16_idem
-    c16_idem.part_idem(chk, drv, runner)
+    c16_idem.part_idem(chk, drv, runner, norm_cases)
     phases["idem"] = round(time.time() - t0, 1)
     t0 = time.time()
     c16_idem.part_writer(chk, drv, runner)
